@@ -50,6 +50,11 @@ type vfSched struct {
 	spinPoint   string
 	spinArrived atomic.Int32
 	spinGo      atomic.Bool
+	// spinAuto: nobody opens the barrier from outside; the first to arrive waits until no further actor has arrived
+	// for a few thousand iterations and then lets everybody (itself included) go at once. For goroutines the
+	// harness does not start itself: probe results that change several targets at the same virtual instant.
+	spinAuto bool
+	spinGen  atomic.Uint32
 }
 
 func newVFSched(w *vfWorld, points []string, probePoints []string) *vfSched {
@@ -102,6 +107,27 @@ func (s *vfSched) point(name string, args ...any) {
 		return
 	}
 	s.logLocked(actor, "point", name)
+	if name == s.spinPoint && !s.off && s.spinAuto {
+		s.mu.Unlock()
+		gen := s.spinGen.Load()
+		if s.spinArrived.Add(1) == 1 {
+			last, stable := int32(1), 0
+			for stable < 4000 {
+				if a := s.spinArrived.Load(); a != last {
+					last, stable = a, 0
+				} else {
+					stable++
+				}
+			}
+			s.spinArrived.Store(0)
+			s.spinGen.Add(1)
+			return
+		}
+		for s.spinGen.Load() == gen {
+			// busy wait on purpose
+		}
+		return
+	}
 	if name == s.spinPoint && !s.off {
 		s.mu.Unlock()
 		s.spinArrived.Add(1)
